@@ -7,8 +7,10 @@ point the scheduler -- never the OS -- decides who runs next, from the run's PRN
 sticky walk, PCT, hot-spot, uniform) or from a recorded decision list (replay).
 
 Frames outside the repository are not traced, so a thread is never parked inside logging, warnings,
-importlib, re or hashlib. Module-level code executed by an import runs without pre-emption (the
-per-module import lock would otherwise block a second importer in C while the first is parked).
+importlib, re or hashlib. By default module-level code executed by an import runs without pre-emption (the
+per-module import lock would otherwise block a second importer in C while the first is parked). With
+preempt_imports=True and install_import_locks() the per-module import locks become cooperative too, and a
+thread can be pre-empted in the middle of a module body while the half-built module sits in sys.modules.
 """
 
 from __future__ import annotations
@@ -62,7 +64,8 @@ class _Abort(BaseException):
 
 class Scheduler:
     def __init__(self, rng, strategy, params, repo_prefixes, max_steps=100000, hot_names=(), opcode_hot=False,
-                 decisions=None):
+                 decisions=None, preempt_imports=False):
+        self.preempt_imports = preempt_imports
         self.rng = rng
         self.strategy = strategy
         self.params = params or {}
@@ -78,6 +81,7 @@ class Scheduler:
         self.hot_hits: dict[str, int] = {}
         self.main_sem = threading.Semaphore(0)
         self.deadlock = None
+        self.import_waits = 0
         self.capped = False
         self.aborted = False
         self._tls = threading.local()
@@ -129,7 +133,7 @@ class Scheduler:
         if c is None:
             fn = code.co_filename
             if fn.startswith(self.prefixes):
-                c = 2 if code.co_name == "<module>" else 1
+                c = 2 if code.co_name == "<module>" and not self.preempt_imports else 1
                 if c == 1 and code.co_name in self.hot_names:
                     c = 3
             else:
@@ -341,6 +345,50 @@ class SimLock:
 
     def locked(self):
         return self.owner is not None
+
+
+def install_import_locks(sched):
+    """make importlib's per-module locks cooperative: same bookkeeping (owner, count, deadlock detection between
+    importers) as importlib._bootstrap._ModuleLock, but a worker that has to wait is parked by the scheduler
+    instead of blocking in C. Only the waiting step is replaced; the main thread keeps the original behaviour."""
+    import _thread
+    import importlib._bootstrap as b
+
+    ML = b._ModuleLock
+    if getattr(ML, "_sim_installed", False):
+        ML._sim_sched = sched
+        return
+    orig_acquire, orig_release = ML.acquire, ML.release
+
+    def acquire(self):
+        sc = ML._sim_sched
+        w = sc.current_worker() if sc is not None else None
+        if w is None:
+            return orig_acquire(self)
+        tid = _thread.get_ident()
+        with b._BlockingOnManager(tid, self):
+            while True:
+                with self.lock:
+                    if self.count == [] or self.owner == tid:
+                        self.owner = tid
+                        self.count.append(True)
+                        return True
+                    if self.has_deadlock():
+                        raise b._DeadlockError(f"deadlock detected by {self!r}")
+                sc.import_waits += 1
+                sc.block(w, self)
+
+    def release(self):
+        orig_release(self)
+        sc = ML._sim_sched
+        if sc is not None and self.owner is None:
+            for x in sc.workers:
+                if x.blocked_on is self:
+                    x.blocked_on = None
+
+    ML.acquire, ML.release = acquire, release
+    ML._sim_installed = True
+    ML._sim_sched = sched
 
 
 def repo_prefixes():
